@@ -104,15 +104,6 @@ pub fn handle(op: &str, a: &[&str]) -> Option<Resp> {
             let s = ds(t)?;
             Some(Resp::ok(view_doc(&s).0))
         }
-        ("deb.lossy", [t]) => {
-            let s = ds(t)?;
-            let r = deb822_lossless::lossy::Deb822::from_str(&s);
-            let obs = match &r {
-                Ok(d) => format!("ok {}", enc_lossy(d)),
-                Err(_) => "err".to_string(),
-            };
-            Some(Resp::ok(obs))
-        }
         _ => None,
     }
 }
@@ -207,13 +198,6 @@ fn check_content(d: &Deb822, expected: &[Vec<(String, String)>]) -> Option<Strin
 
 pub fn enc_items(items: &[(String, String)]) -> String {
     items.iter().map(|(k, v)| format!("{}:{}", es(k), es(v))).collect::<Vec<_>>().join(",")
-}
-
-pub fn enc_lossy(d: &deb822_lossless::lossy::Deb822) -> String {
-    d.iter()
-        .map(|p| enc_items(&p.iter().map(|(k, v)| (k.to_string(), v.to_string())).collect::<Vec<_>>()))
-        .collect::<Vec<_>>()
-        .join(";")
 }
 
 /// representatives of the lexer's character classes
